@@ -12,7 +12,7 @@ T = ['C12']
 
 
 def build(repo):
-    D = LinCombDomain(repo, scalar_facts=True)
+    D = LinCombDomain(repo, scalar_facts=True, expand_shrink=True)
     D.ghost_shapes = {}
     VP = {'xopt': 'lc', 'g': 'lc', 'H': 'mat', 'sl': 'lc', 'su': 'lc', 'd': 'lc', 'gnew': 'lc', 'xbdi': 'xbdi', 'delta': 'real', 'qred': 'real', 'n': 'int', 'nact': 'int',
           'use_fortran': 'bool'}
@@ -28,7 +28,11 @@ def build(repo):
                modifies=[], result=None, dead_under=['use_fortran'],
                loops={'for:ii#0': [N1, N2], 'for:i#0': [('the bound scan only shortens the step:: stplen <= blen', 'C12'),
                                   ('a coordinate stopped by a bound has a non-zero search component (so it is a free one):: isnone(iact) or s[iact] != 0.0', 'C12')]},
-               asserts={'before:d_within_bounds#1': [('(C12) the step handed to the final clip after the conjugate-gradient phase has ||d|| <= delta:: ' + NORM, 'C12')],
+               asserts={'after:blen': [('lemma (BLEN is the positive root: the step of that length ends on the sphere of the free variables):: '
+                                        'blen > 0.0 and sumsq(s) * blen * blen + 2.0 * DOT(s[xbdi == 0], d[xbdi == 0]) * blen == delsq - sumsq(d[xbdi == 0])', 'C12')],
+                        'after:sdec@1': [('lemma (before the step is taken; the step length actually used is stplen when that is positive, else 0): the free part of the new step fits the budget:: '
+                                          'sumsq(d[xbdi == 0]) + 2.0 * (stplen if stplen > 0.0 else 0.0) * DOT(s[xbdi == 0], d[xbdi == 0]) + (stplen if stplen > 0.0 else 0.0) ** 2 * sumsq(s) <= delsq', 'C12')],
+                        'before:d_within_bounds#1': [('(C12) the step handed to the final clip after the conjugate-gradient phase has ||d|| <= delta:: ' + NORM, 'C12')],
                         'before:alt_trust_step#1': [('(C12) the step handed to the boundary iteration has ||d|| <= delta:: ' + NORM, 'C12')]},
                ensures=[])
     D.verify_list = ['trsbox']
